@@ -314,6 +314,16 @@ func runC16(o *out, thorough bool, r *rng, _ []string) map[string]interface{} {
 		}
 	}
 	emitParsed(o, fam, "missing-port-family")
+	// every host form of the dictionary under every scheme, with and without port and query
+	var dict [][]byte
+	for _, p := range []string{"stun:", "stuns:", "turn:", "turns:"} {
+		for _, h := range uriHostDictionary {
+			for _, tail := range []string{"", ":3478", "?transport=udp", ":1?transport=%73ctp", ":5349?transport=tcp"} {
+				dict = append(dict, []byte(p+h+tail))
+			}
+		}
+	}
+	emitParsed(o, dict, "host-dictionary")
 	// grammar-mutated, non-ASCII, control characters, very long inputs
 	var rnd [][]byte
 	n := 3000
@@ -370,15 +380,30 @@ func genURI(r *rng) []byte {
 	default:
 		host = string(r.bytes(r.intn(6)))
 	}
+	if r.chance(1, 4) {
+		host = uriHostDictionary[r.intn(len(uriHostDictionary))]
+	}
 	port := []string{"", ":0", ":65535", ":65536", ":-1", ":+5", ":3478", ":5349", ":99999999999999999999", ":08", ":", ":1x", ":443"}[r.intn(13)]
-	query := []string{"", "", "?transport=udp", "?transport=tcp", "?transport=sctp", "?transport=udp&transport=tcp", "?transport=udp&x=1",
-		"?x=1", "?", "?tr%61nsport=tcp", "?transport=t%63p", "?transport=udp;x", "?transport=%zz", "?=udp", "?transport", "?transport=udp#frag", "#frag%zz"}[r.intn(17)]
+	query := []string{"", "", "?transport=udp", "?transport=tcp", "?transport=sctp", "?transport=%73ctp", "?transport=u%64p", "?transport=tc+p", "?transport=+", "?transport=%00",
+		"?transport=%C8%BAtcp", "?%C8%BA=1&transport=tcp", "?x=%ff&transport=udp", "?TRANSPORT=TCP", "?transport=TCP", "?transport=tcp&transport=%73ctp", "?transport=udp&transport=tcp", "?transport=udp&x=1",
+		"?x=1", "?", "?tr%61nsport=tcp", "?transport=t%63p", "?transport=udp;x", "?transport=%zz", "?=udp", "?transport", "?transport=udp#frag", "#frag%zz"}
+	q := query[r.intn(len(query))]
 	sep := ":"
 	if r.chance(1, 12) {
 		sep = "://"
 	}
-	return []byte(scheme + sep + host + port + query)
+	return []byte(scheme + sep + host + port + q)
 }
+
+// host forms that other specifications give a meaning to: IDNA A-labels (whole, cut short, mistyped), RFC 3986
+// IPvFuture literals, RFC 6874 zone identifiers, IPv4-mapped and odd IPv6 spellings, percent escapes, a trailing
+// dot, an upper-case and a very long label
+var uriHostDictionary = []string{"xn--mnchen-3ya.example", "xn--mnchen-3y.example", "stun.xn--p1a", "xn--z", "xn--", "xn---", "xn--a-", "XN--MNCHEN-3YA", "a.xn--", "xn--99999999999",
+	"[v6]", "[V4]", "[vface]", "[v]", "[v1.fe80::a+en1]", "[v7.x]", "[vF.]", "[v.]", "[vg]",
+	"[fe80::1%25eth0]", "[fe80::1%eth0]", "[fe80::1%]", "[fe80::1%25]", "example.org%", "example.org%2", "example.org%25", "ex%61mple.org", "%", "%zz",
+	"[::ffff:192.0.2.1]", "[::ffff:c000:201]", "[0:0:0:0:0:0:0:1]", "[::g]", "[a:b]", "[1::2::3]", "[::1", "::1]", "[]", "[[::1]]", "[ ::1]",
+	"example.org.", ".", "..", "EXAMPLE.ORG", "a-.example", "-a.example", "0x7f.1", "0177.0.0.1", "1.2.3", "1.2.3.4.5", "256.1.1.1", "localhost",
+	"\u00fc.example", "\u212a.example", "\u0130.example", "a\u200db.example", strings.Repeat("a", 63) + ".example", strings.Repeat("a", 64) + ".example", strings.Repeat("a.", 130) + "example"}
 
 // preParsed caches results of the batched child-process parse (crash containment) for cmd 1701
 var preParsed = map[string][]int{}
@@ -422,6 +447,18 @@ func execURIRoundTrip(o *out, f [][]int) []int {
 	if eq == 0 {
 		o.failFor("C17", "uri-roundtrip-fails", "1701 "+fHex(s)+" string="+fHex([]byte(str)))
 	}
+	// what ParseURI returns belongs to the caller: editing it (credentials, another port or transport) changes
+	// nothing about what the same string parses to next time
+	orig := *u
+	u.Username, u.Password, u.Port, u.Host = "edited", "edited", 9, "edited.example"
+	if u.Proto == stun.ProtoTypeUDP {
+		u.Proto = stun.ProtoTypeTCP
+	} else {
+		u.Proto = stun.ProtoTypeUDP
+	}
+	if again, err := stun.ParseURI(string(s)); err != nil || again == nil || *again != orig {
+		o.failFor("C17", "parse-result-shared-between-callers", "1701 "+fHex(s))
+	}
 	return append(obs)
 }
 
@@ -432,7 +469,10 @@ type fakeNet struct {
 	mu    sync.Mutex
 	dials []string
 	conns []*fakeConn
+	fail  string // dials of this network ("udp" / "tcp") fail
 }
+
+var errScriptedDial = errors.New("scripted dial failure")
 
 type fakeConn struct {
 	mu     sync.Mutex
@@ -492,9 +532,80 @@ func (f *fakeNet) mk(network, addr string) *fakeConn {
 	f.mu.Unlock()
 	return c
 }
-func (f *fakeNet) Dial(network, address string) (net.Conn, error) { return f.mk(network, address), nil }
+func (f *fakeNet) Dial(network, address string) (net.Conn, error) {
+	if f.fail != "" && strings.HasPrefix(network, f.fail) {
+		f.mu.Lock()
+		f.dials = append(f.dials, network+" "+address+" (failed)")
+		f.mu.Unlock()
+		return nil, errScriptedDial
+	}
+	return f.mk(network, address), nil
+}
 func (f *fakeNet) DialUDP(network string, laddr, raddr *net.UDPAddr) (transport.UDPConn, error) {
+	if f.fail != "" && strings.HasPrefix(network, f.fail) {
+		f.mu.Lock()
+		f.dials = append(f.dials, network+" "+raddr.String()+" (failed)")
+		f.mu.Unlock()
+		return nil, errScriptedDial
+	}
 	return f.mk(network, raddr.String()), nil
+}
+
+// failingDialScenarios: when the dial of the URI's own transport fails, DialURI reports that failure; it does
+// not quietly try the other transport
+func failingDialScenarios(o *out) {
+	for _, s := range []string{"stun:192.0.2.7", "stuns:192.0.2.7", "turn:192.0.2.7", "turn:192.0.2.7?transport=udp", "turn:192.0.2.7?transport=tcp",
+		"turns:192.0.2.7", "turns:192.0.2.7?transport=udp", "turns:192.0.2.7?transport=tcp"} {
+		u, err := stun.ParseURI(s)
+		if err != nil {
+			continue
+		}
+		own := "udp"
+		if u.Proto == stun.ProtoTypeTCP {
+			own = "tcp"
+		}
+		for _, fail := range []string{"udp", "tcp"} {
+			fn := &fakeNet{fail: fail}
+			cfg := &stun.DialConfig{Net: fn}
+			cfg.TLSConfig.InsecureSkipVerify = true  //nolint:gosec
+			cfg.DTLSConfig.InsecureSkipVerify = true //nolint:gosec
+			type result struct {
+				c   *stun.Client
+				err error
+			}
+			done := make(chan result, 1)
+			go func() { c, err := stun.DialURI(u, cfg); done <- result{c, err} }()
+			var res result
+			select {
+			case res = <-done:
+			case <-time.After(3 * time.Second):
+				res = result{nil, errors.New("dial blocked")}
+			}
+			fn.mu.Lock()
+			dials := strings.Join(fn.dials, "; ")
+			other := false
+			for _, d := range fn.dials {
+				if !strings.HasPrefix(d, own) {
+					other = true
+				}
+			}
+			for _, c := range fn.conns {
+				_ = c.Close()
+			}
+			fn.mu.Unlock()
+			if res.c != nil {
+				go func() { _ = res.c.Close() }()
+			}
+			detail := fmt.Sprintf("x %s with every %s dial failing: error=%v dials: %s", s, fail, res.err, dials)
+			if other {
+				o.failFor("C17", "dialed-a-transport-the-uri-does-not-denote", detail)
+			}
+			if fail == own && res.err == nil {
+				o.failFor("C17", "dial-failure-hidden", detail)
+			}
+			o.count("failing-dial-scenarios")
+		}
+	}
 }
 func (f *fakeNet) ResolveUDPAddr(network, address string) (*net.UDPAddr, error) {
 	return net.ResolveUDPAddr(network, address)
@@ -766,6 +877,7 @@ func certFor(host string) (tls.Certificate, *x509.CertPool, error) {
 // the URI's host — DNS names and IP literals alike: a server whose certificate is valid for exactly that
 // host completes the handshake, a server with a certificate for another host does not.
 func tlsServerNameScenarios(o *out) {
+	failingDialScenarios(o)
 	for _, host := range []string{"192.0.2.7", "2001:db8::7", "turn.example.org", "127.0.0.1"} {
 		for _, raw := range []string{"stuns:%s:5349", "turns:%s:443?transport=tcp"} {
 			for _, right := range []bool{true, false} {
